@@ -376,6 +376,20 @@ def rand_unit(rng):
             return [x / nv for x in v]
 
 
+def tomo_values(rng, nt):
+    """The nt tomogram numbers of a case: the usual 1.., a set containing 0, large consecutive numbers, a number equal to
+    the number of particles is produced by chance (identifier values are data, never flags or counts)."""
+    kind = rng.randrange(4)
+    if kind == 0:
+        return list(range(1, nt + 1))
+    if kind == 1:
+        return list(range(0, nt))
+    if kind == 2:
+        start = rng.choice([100000, 100001, 123455])
+        return list(range(start, start + nt))
+    return sorted(rng.sample(range(0, 500), nt))
+
+
 def gen_case(rng, idx, nforce=0):
     n = rng.randint(2, 60) if rng.random() < 0.7 else rng.randint(2, 14)
     if nforce:
@@ -424,10 +438,11 @@ def gen_case(rng, idx, nforce=0):
         exit_ = [exit_[p] for p in perm]
     entry = [[round(v, 3) for v in p] for p in entry]
     exit_ = [[round(v, 3) for v in p] for p in exit_]
-    tomo = [rng.randint(1, nt) for _ in range(n)]
+    tv = tomo_values(rng, nt)
+    tomo = [tv[rng.randrange(nt)] for _ in range(n)]
     if rng.random() < 0.5:
         tomo = sorted(tomo)
-    base = rng.choice([1, 1, 100, 5000, 16777217])
+    base = rng.choice([1, 1, 0, 100, 5000, 100000, 16777217])
     sid = list(range(base, base + n))
     if rng.random() < 0.3:
         rng.shuffle(sid)
@@ -477,7 +492,8 @@ def gen_exact_case0(rng, idx):
     rng.shuffle(perm)
     nt = rng.randint(1, 2)
     return {"kind": "points", "id": idx, "entry": [entry[p] for p in perm], "exit": [exit_[p] for p in perm],
-            "tomo": sorted(rng.randint(1, nt) for _ in range(n)), "sid": list(range(1, n + 1)), "max": dmax, "min": dmin,
+            "tomo": sorted(rng.choice([[1, 2], [0, 1], [100001, 100002]][idx % 3][:nt]) for _ in range(n)),
+            "sid": list(range([1, 0, 100000][idx % 3], [1, 0, 100000][idx % 3] + n)), "max": dmax, "min": dmin,
             "variant": rng.randrange(64) & ~1, "mode": "lattice-exact", "form": FORMS[idx % len(FORMS)],
             "form_x": FORMS[(idx * 5 + 1) % len(FORMS)], "kx": rng.randrange(8), "exact": True}
 
@@ -499,7 +515,8 @@ def instance_case(ctx, rec, rng, idx):
         return None
     entry, exit_ = real
     n = rec["n"]
-    return {"kind": "points", "id": idx, "entry": entry, "exit": exit_, "tomo": [1] * n, "sid": list(range(1, n + 1)),
+    return {"kind": "points", "id": idx, "entry": entry, "exit": exit_, "tomo": [[1, 0, 100001][idx % 3]] * n,
+            "sid": list(range([1, 0, 100000][(idx // 3) % 3], [1, 0, 100000][(idx // 3) % 3] + n)),
             "max": chainsgeo.DMAX, "min": chainsgeo.DMIN, "variant": (idx * 7) % 64, "form": FORMS[idx % len(FORMS)],
             "form_x": FORMS[(idx * 5 + 1) % len(FORMS)], "kx": (idx * 3 + 2) % 8,
             "mode": "model-instance",
@@ -624,7 +641,8 @@ def run(ctx):
             if by_id[c["id"]] is None:
                 continue                                        # a control instance: its table is the old design's
             nmodel += 1
-            real = canon([(r[0], r[2], r[3]) for r in rows])
+            loc = {sid: k + 1 for k, sid in enumerate(c["sid"])}          # the model numbers the particles 1..n in list order
+            real = canon([(loc.get(r[0], -1), r[2], r[3]) for r in rows])
             agree += int(real == canon([tuple(x[:3]) for x in by_id[c["id"]]["table"]]))
         realised = set()
         for c in cases:                                       # replayed = handed to the code, whatever the verdict
